@@ -183,6 +183,8 @@ func c17RunCaseInner(c c17Case, e *c17Env, g *c17Guard) c17Out {
 		e.runDirect(c, &res)
 	case "after":
 		e.runAfter(c, &res)
+	case "prefix-reuse":
+		e.runPrefixReuse(c, &res)
 	default:
 		res.Inconclusive = "unknown case kind " + c.Kind
 	}
